@@ -113,6 +113,14 @@ package api
 //@   at call invoke.Header#6 ghost originChecked = true
 //@   at call authenticateRequest assert origin == "" || originChecked
 //@   at call invoke.ServeHTTP assert apiRequest.AuthToken != nil && handler != nil && (origin == "" || originChecked)
+//@   maypanic invoke.ServeHTTP
+//@   recovers
+//@   ghost var panicked bool = false
+//@   ghost var code500 bool = false
+//@   ghost var reportedP bool = false
+//@   at call http.Error ghost code500 = (arg2 == 500)
+//@   at call (*ModuleError).Report ghost reportedP = true
+//@   ensures panicked ==> code500 && reportedP
 
 // C03: the external database API always works through an interface that is neither local nor internal
 //@ func CreateDatabaseAPI
